@@ -4,12 +4,14 @@
 import json, glob, os
 
 ROUND3 = {'C07', 'C08', 'C09', 'C17', 'C18', 'C19', 'C21', 'C23', 'C30', 'C35', 'C36', 'C37', 'C38'}
-rows1, rows2, rows3 = [], [], []
+rows1, rows2, rows3, rows4 = [], [], [], []
 for d in sorted(glob.glob('/verif/seeded/*')):
     m = json.load(open(d + '/meta.json'))
     name = os.path.basename(d)
     r = (name, (m.get('summary') or '').replace('|', '/').replace('\n', ' ')[:170], m.get('detected_by', '?').replace('|', '/'), (m.get('detection_note') or '').replace('|', '/'))
-    if '-r2-' not in name:
+    if '-r4-' in name:
+        rows4.append(r)
+    elif '-r2-' not in name:
         rows1.append(r)
     elif name.split('-')[0] in ROUND3:
         rows3.append(r)
